@@ -803,6 +803,59 @@ rc::Gen<Case> gen_huge() {
                     {"d", rc::gen::weightedOneOf<int64_t>({{1, range(0, 15)}, {3, range(16, 35)}})}, {"via", range(0, 2)}, {"bigk", rc::gen::weightedOneOf<int64_t>({{12, rc::gen::just<int64_t>(0)}, {1, rc::gen::just<int64_t>(1)}})}}, rc::gen::just(std::vector<Op>{}));
 }
 
+
+// ------------------------------------------------------------------ type-converting construction
+// Every family can be constructed from a sketch of another item type. The conversion here keeps the order (double -> float, all values exactly
+// representable) while the sketch is still exact, so the converted sketch holds the same multiset and every answer is known. The source is
+// queried or serialized first in two thirds of the cases (both sort its lowest buffer as a side effect). Conversions that CHANGE the order
+// (std::less -> std::greater) are not generated: on the pinned tree KLL keeps its levels and all three families copy min / max unconverted,
+// i.e. the library does not support them.
+template <typename Src, typename Dst> void convert_one(Src src, const Case& cs, const char* fam, uint64_t cap) {
+  vf::Rng r(static_cast<uint64_t>(cs.get("seed", 1)) * 131 + 7);
+  const uint64_t n = 1 + static_cast<uint64_t>(cs.get("n", 0)) % cap;
+  std::vector<float> vals;
+  for (uint64_t i = 0; i < n; ++i) { const double v = static_cast<double>(r.below(2 * n + 3)) * 0.5; vals.push_back(static_cast<float>(v)); src.update(v); }
+  const int touch = static_cast<int>(cs.get("touch", 0) % 3);
+  if (touch == 1) (void)src.get_rank(static_cast<double>(vals[0]), true);
+  else if (touch == 2) (void)src.serialize();
+  VF_CHECK(!src.is_estimation_mode(), "convert-setup", fam << ": the source left exact mode with " << n << " items");
+  Dst conv(src);
+  std::ostringstream c; c << fam << " k=" << src.get_k() << " n=" << n << (touch == 1 ? " (source queried)" : touch == 2 ? " (source serialized)" : "") << " converted double -> float: ";
+  const std::string ctx = c.str();
+  VF_CHECK(conv.get_n() == n && conv.get_num_retained() == n && !conv.is_estimation_mode() && conv.get_k() == src.get_k(), "convert-n", ctx << "n " << conv.get_n() << " retained " << conv.get_num_retained() << " k " << conv.get_k());
+  std::sort(vals.begin(), vals.end());
+  VF_CHECK(conv.get_min_item() == vals.front() && conv.get_max_item() == vals.back(), "min-max", ctx << "min " << conv.get_min_item() << " max " << conv.get_max_item() << " expected " << vals.front() << " " << vals.back());
+  auto view = conv.get_sorted_view();
+  float prev = 0; bool first = true; uint64_t cum = 0;
+  for (auto it = view.begin(); it != view.end(); ++it) { const float x = (*it).first; VF_CHECK(first || !(x < prev), "view-order", ctx << "sorted view out of order: " << prev << " then " << x); prev = x; first = false; cum = (*it).second; }
+  VF_CHECK(cum == n, "view-total", ctx << "sorted view total weight " << cum);
+  for (uint64_t i = 0; i < n; ++i) {
+    const float x = vals[i];
+    const uint64_t le = static_cast<uint64_t>(std::upper_bound(vals.begin(), vals.end(), x) - vals.begin());
+    const uint64_t lt = static_cast<uint64_t>(std::lower_bound(vals.begin(), vals.end(), x) - vals.begin());
+    VF_CHECK(std::fabs(conv.get_rank(x, true) - static_cast<double>(le) / n) <= 1e-12 && std::fabs(conv.get_rank(x, false) - static_cast<double>(lt) / n) <= 1e-12, "exact-rank",
+             ctx << "rank(" << x << ") inclusive " << conv.get_rank(x, true) << " exclusive " << conv.get_rank(x, false) << ", true " << static_cast<double>(le) / n << " / " << static_cast<double>(lt) / n);
+  }
+  // the converted sketch goes on like any other
+  conv.update(vals.back() + 1.0f);
+  VF_CHECK(conv.get_n() == n + 1 && conv.get_max_item() == vals.back() + 1.0f, "convert-continue", ctx << "after one more update n " << conv.get_n() << " max " << conv.get_max_item());
+  vf::label(std::string("convert:") + fam);
+  vf::nontrivial();
+}
+void prop_convert(const Case& cs) {
+  ChecksFlush f;
+  vf::own_randomness(static_cast<uint64_t>(cs.get("seed", 1)));
+  const int fam = static_cast<int>(((cs.get("fam", 0) % 3) + 3) % 3);
+  const uint16_t k = k_from(fam, static_cast<uint64_t>(cs.get("k0", 0)));
+  if (fam == F_KLL) convert_one<kll_sketch<double>, kll_sketch<float>>(kll_sketch<double>(k), cs, "kll", k);
+  else if (fam == F_REQ) convert_one<req_sketch<double>, req_sketch<float>>(req_sketch<double>(k, cs.get("hra", 1) & 1), cs, "req", 2 * static_cast<uint64_t>(k));
+  else convert_one<quantiles_sketch<double>, quantiles_sketch<float>>(quantiles_sketch<double>(k), cs, "classic", 2 * static_cast<uint64_t>(k) - 1);
+}
+rc::Gen<Case> gen_convert() {
+  using namespace vf;
+  return make_case({{"fam", range(0, 2)}, {"seed", range(1, 1 << 30)}, {"hra", range(0, 1)}, {"k0", range(0, 15)}, {"n", range(0, 4000)}, {"touch", pick({0, 1, 2})}}, rc::gen::just(std::vector<Op>{}));
+}
+
 // ------------------------------------------------------------------ generators
 rc::Gen<int64_t> ksel_small() { return rc::gen::weightedOneOf<int64_t>({{6, vf::range(0, 5)}, {3, vf::range(6, 11)}, {1, vf::range(12, 15)}}); }
 
@@ -869,6 +922,7 @@ int main(int argc, char** argv) {
   subs.push_back({"main", gen_main, prop_main, 1.0});
   subs.push_back({"large", gen_large, prop_large, 0.04, 100});
   subs.push_back({"huge_n", gen_huge, prop_huge, 0.05, 100});
+  subs.push_back({"convert", gen_convert, prop_convert, 0.03, 100});
   if (vf::env("VF_WORKER", "0") == "0" || argc >= 3) subs.push_back({"nanrank", gen_nanrank, prop_nanrank, 0.004, 100});
   return vf::main_driver(argc, argv, "C07", "c07_quantiles",
                          "case = family (KLL / REQ HRA|LRA / classic) x item type and comparator (float less, double greater, int64 less, string "
